@@ -593,3 +593,10 @@ def r_bitfield(cx, rec):
                     found = True
       rec.need(found, 'bitfield/bytes-num/' + top.name, top, None,
                '%s: byte count must be n/8 when n%%8==0 and n/8+1 otherwise' % top.name)
+
+
+@TABLE.rule('8', 'K1+K11', 'every frame up to the frame limit is decodable: the size guard rejects exactly the length prefixes above '
+            'MAX_FRAME_SIZE (shared with C06)', floor=1)
+def r8(cx, rec):
+    from rules import C06
+    C06.r5(cx, rec)
